@@ -233,8 +233,24 @@ func ruleGuardRootIn(c *Ctx, r *Rep, pv *prov, fr frame, np *int) {
 				n++
 				// the facts known on every path to the registration: the issuer is empty, and nothing else is said about it
 				seenIssuerEmpty, other := false, ""
+				type fact struct {
+					g  guard
+					at *atomizer
+				}
+				var facts []fact
 				for _, g := range guardsOf(b) {
-					s, pos := a.atom(g.Cond)
+					facts = append(facts, fact{g, a})
+				}
+				// the registration sits in a helper: what is known where the helper is called counts as well
+				if fr.site != nil && fr.site.Parent() != fn {
+					ca := &atomizer{c: c, pv: pv, fn: fr.site.Parent()}
+					for _, g := range guardsOf(fr.site.Block()) {
+						facts = append(facts, fact{g, ca})
+					}
+				}
+				for _, f := range facts {
+					g := f.g
+					s, pos := f.at.atom(g.Cond)
 					if !strings.Contains(s, ".Issuer") {
 						continue
 					}
